@@ -273,6 +273,10 @@ func dispatch(c *Ctl, job *Job, idx int, res *RunResult) {
 	switch job.Engine {
 	case "sched":
 		runSchedJob(c, job, idx, res)
+	case "integ":
+		runIntegJob(c, job, idx, res)
+	case "fault":
+		runFaultJob(c, job, idx, res)
 	default:
 		res.HarnessErr = "unknown engine " + job.Engine
 	}
